@@ -53,11 +53,14 @@ func run(r *common.Run) error {
 		case "fuzz":
 			c.corpus()
 			c.paged()
-			c.sizes()
 			c.systematic()
 			c.random()
+		case "sizes":
+			c.sizes()
 		case "scen":
-			c.scenarios()
+			c.scenarios(false)
+		case "pending":
+			c.scenarios(true)
 		case "nego":
 			c.negotiation()
 		case "minimise":
@@ -82,17 +85,10 @@ func run(r *common.Run) error {
 	}
 	c.primitives()
 	c.skeletons()
-	r.Mark("case fuzz")
-	if err := c.runChild("fuzz"); err != nil {
-		return err
-	}
 	r.Exhaustive = append(r.Exhaustive, "every single-step mutation (noise child at every position, every attribute dropped/emptied/garbled, every child dropped, every element stripped) of every stanza template and every reply template")
-	r.Mark("case scenarios")
-	if err := c.runChild("scen"); err != nil {
-		return err
-	}
-	r.Mark("case negotiation")
-	return c.runChild("nego")
+	// the groups are independent (each child builds its own sessions): run them side by side,
+	// longest first; their records are merged in this order whatever the scheduling was
+	return c.runGroups([]string{"fuzz", "scen", "nego", "sizes", "pending"})
 }
 
 // primitives ties the kind semantics of the skeleton IR to real Go on the whole finite
@@ -255,8 +251,15 @@ func (c *ctx) skeletons() {
 			sites[fmt.Sprint(s.ID)] = s.String()
 		}
 	}
-	var trusted []string
+	var trusted, derivedSites []string
+	for _, d := range c.an.Derived {
+		derivedSites = append(derivedSites, d.Fn+" "+d.Kind+" "+d.Expr)
+	}
+	r.Extra["derived_sites"] = derivedSites
 	for _, e := range c.an.Allow.entries {
+		if e.derived {
+			continue // re-derived on every run; the sites it covered are listed in derived_sites
+		}
 		trusted = append(trusted, fmt.Sprintf("%s %s %s (used %d) | %s", e.fn, e.kind, e.desc, e.used, e.why))
 		if e.used == 0 {
 			r.Notes = append(r.Notes, "allow.txt entry matches nothing any more: "+e.fn+" "+e.kind+" "+e.desc)
@@ -272,6 +275,21 @@ func (c *ctx) skeletons() {
 		gos = append(gos, fmt.Sprintf("%s:%d %s waits-afterwards=%v", g.File, g.Line, g.Fn, g.Joined))
 	}
 	r.Extra["goroutines_started_in_scope"] = gos
+	var chans []string
+	for _, o := range c.an.ChanOps {
+		chans = append(chans, fmt.Sprintf("%s:%d %s %s %s", o.File, o.Line, o.Fn, o.Op, o.Kind))
+	}
+	r.Extra["channel_operations_on_serve_goroutine"] = chans
+	// request helpers of the API (exported, wait for the peer's answer) against what the
+	// helper fixtures and the scenarios call
+	var notRun []string
+	for _, h := range c.an.RequestHelpers {
+		if !exercisedHelpers[h] {
+			notRun = append(notRun, h)
+		}
+	}
+	r.Extra["request_helpers_in_scope"] = len(c.an.RequestHelpers)
+	r.Extra["request_helpers_not_exercised"] = notRun
 	r.Extra["may_return_nil_with_nil_error"] = c.an.MayNil
 	r.Extra["generated_files_skipped"] = c.an.Generated
 	r.Extra["files_left_to_other_properties"] = c.an.Skipped
